@@ -138,6 +138,10 @@ class ComplexStep(BaseGradientApproximator):
         input_indices: list[int],
         step: float,
     ) -> tuple[ndarray, float | ndarray]:
+        if isinstance(step, complex) and step.imag != 0:
+            # As for the default step, an imaginary step stands for its imaginary part.
+            step = step.imag
+
         input_dimension = len(input_values)
         n_indices = len(input_indices)
         input_perturbations = zeros((input_dimension, n_indices), dtype=complex128)
